@@ -1170,6 +1170,19 @@ fn build_c05(tier: &str) -> Vec<Job> {
             }
         }
     }
+    // ---- hand-made files at the limits of what the loaders accept: iCE Draw pictures of 200, 201 and 300 rows, 1 and 80 columns
+    for (x2, rows) in [(79u16, 200u16), (79, 201), (79, 300), (0, 201)] {
+        let mut b = b"\x041.4".to_vec();
+        for v in [0u16, 0, x2, rows - 1] {
+            b.extend(v.to_le_bytes());
+        }
+        for i in 0..(x2 as usize + 1) * rows as usize {
+            b.extend([b'a' + (i % 23) as u8, 0x17]);
+        }
+        b.extend(font_glyph_bytes(&BitFont::default()));
+        b.extend((0..48).map(|i| (i * 5 % 64) as u8));
+        jobs.push(Job::Resave(Fmt::Idf, format!("hand-made iCE Draw file, {} x {rows}", x2 + 1), b));
+    }
     // ---- re-save stability over faulted files
     for (fmt, name, seed) in resave_seeds() {
         for (desc, bytes) in vharness_faults(&seed, thorough) {
